@@ -32,12 +32,12 @@ CHECKS = {
     ref='§3 C05'),
  'C20': dict(
     technique='Text.tla: strings built by Append over a symbol alphabet, TEXT formats built by a grammar automaton, model-checked by TLC for the slicing/search/substitute/trim laws and decimal-exact TEXT; vectors executed on lib/text.py and through formulas',
-    text='TLC checks SplitLaw, RightLaw, MidLaw, ReplaceLaw, FindLaw (first match), SubstLaw (i-th / all), TrimLaw, idempotence, ExactLaw, RenderLaw and the TEXT rounding/shape laws for every text up to the length bound and all n, k in -1..10, every number x format; each state is executed on the real functions (library calls and 19 compiled formulas per sampled row).',
+    text='TLC checks SplitLaw, RightLaw, MidLaw, ReplaceLaw, FindLaw (first match), SubstLaw (i-th / all), TrimLaw, idempotence, ExactLaw, RenderLaw and the TEXT rounding/shape laws for every text up to the length bound and all n, k in -1..10, every number x format; each state is executed on the real functions (library calls, every other vector from a thread which did not import the library, and 19 compiled formulas per sampled row).',
     note='MID/FIND with start < 1, SUBSTITUTE with empty or self-overlapping old text, TEXT of negative numbers rounding to zero and comma formats with more than 3 forced digits are executed but not judged',
     ref='§3 C20'),
  'C19': dict(
     technique='TLA+ enumerator machine over exact decimals (Rounding.tla) model-checked by TLC; exported vectors executed on the real functions and formulas',
-    text='ROUND/ROUNDUP/ROUNDDOWN/TRUNC/INT/MOD/CEILING*/FLOOR*/EVEN/ODD are defined on integer pairs (k, j); TLC checks bracket, fixed-point, tie, MOD-identity and duality laws on every enumerated state (ties and near-ties generated exactly) and each state is executed on excellib and through compiled formulas.',
+    text='ROUND/ROUNDUP/ROUNDDOWN/TRUNC/INT/MOD/CEILING*/FLOOR*/EVEN/ODD are defined on integer pairs (k, j); TLC checks bracket, fixed-point, tie, MOD-identity (INT and MOD judged together as allowed pairs, ModPairs) and duality laws on every enumerated state (ties and near-ties generated exactly) and each state is executed on excellib and through compiled formulas.',
     note='CEILING/FLOOR sign conventions with negative arguments accept either neighbour; decimal significances (0.1) and magnitudes beyond 1e9 are outside the domain; binary floats only get the magnitude laws',
     ref='§3 C19'),
  'C06': dict(
@@ -47,8 +47,8 @@ CHECKS = {
     ref='§3 C06'),
  'C07': dict(
     technique='Threads.tla: micro-step model of two workloads over per-thread vs shared singleton namespaces, all interleavings checked by TLC (Isolation holds thread-local, counterexample when shared); systematic schedule family executed with real threads under a deterministic baton scheduler at the hook preemption points',
-    text='TLC proves Isolation and StackBalanced over every interleaving of iterative / array-formula / plain workloads with thread-local namespaces and must find a violation with a shared namespace (non-vacuity); the real code is bound by (a) solo results equal to the model, (b) every schedule "second workload runs k of its evaluation events, or to completion, inside the j-th event of the first" (both orders, fresh and warmed threads, plus random schedules) executed deterministically with real threads: results, pass counts and the tracker/context fields seen at each own event must equal the solo run, (c) every public operation (from_file, evaluate, set_value, trim_graph, value_tree_str) as the first pycel action of a new thread.',
-    note='preemption at formula begin/end granularity (the quantifier), not bytecode granularity; two threads',
+    text='TLC proves Isolation and StackBalanced over every interleaving of iterative / array-formula / plain workloads with thread-local namespaces and must find a violation with a shared namespace (non-vacuity); the real code is bound by (a) solo results equal to the model, (b) every schedule "second workload runs k of its evaluation events, or to completion, inside the j-th event of the first" (both orders, fresh and warmed threads, threads started plainly and inside a copy of the spawning thread\'s context as asyncio.to_thread does, plus random schedules) executed deterministically with real threads: results, pass counts and the tracker/context fields seen at each own event must equal the solo run, (c) every public operation (from_file, evaluate, set_value, trim_graph, value_tree_str) as the first pycel action of a new thread.',
+    note='preemption at formula begin/end granularity and at pycel function calls, not bytecode granularity; two threads; a scheduler timeout (overloaded machine) is a machinery failure, never a verdict',
     ref='§3 C07'),
  'C08': dict(
     technique='Trim.tla (Engine + trim_graph written like the code) explored exhaustively by TLC per (inputs, outputs) choice; every transition replayed on the real model, an untrimmed twin and a save/load twin',
@@ -62,8 +62,8 @@ CHECKS = {
     ref='§3 C09'),
  'C10': dict(
     technique='ExcelValues.tla (total operator definitions on tagged values, text as character codes) + Operators.tla enumerator over ops x pool^2 (pool^3 for transitivity), model-checked by TLC; every state executed three ways on the code',
-    text='TLC checks Total, ErrLeftFirst, DivZero, Coercion, Trichotomy, TypeOrder, CaseBlind, ConcatRender, Algebra and Transitive on the definitions for 14 operators over a 32-value pool; each (op, a, b) is executed as literals in a formula, as cell operands and directly through the operand fixup; the result must equal the definition, type-exact.',
-    note='0^0, ordering of texts with punctuation, currency/date-like text, "TRUE"/"FALSE" text in arithmetic and huge powers are unconstrained (totality still required)',
+    text='TLC checks Total, ErrLeftFirst, DivZero, Coercion, Trichotomy, TypeOrder, CaseBlind, ConcatRender, Algebra, Transitive, BeyondIsText (numeric-looking text beyond the double range), Overflow (results beyond the double range are #NUM!), Closed (every result fed back through the operators) and ForeignIsText (texts of non-ASCII digits) on the definitions for 14 operators over the value pool; each (op, a, b) is executed as literals in a formula, as cell operands and directly through the operand fixup; the result must equal the definition, type-exact.',
+    note='0^0, ordering of texts with punctuation, currency/date-like text and the bands next to the limits of a double (1E308..1E309, below 1E-307) are unconstrained (totality still required)',
     ref='§3 C10'),
  'C11': dict(
     technique='Address.tla (column letters, print/parse, R1C1, rectangle lattice) model-checked by TLC over boundary walks, sheet-name strings and all rectangle pairs/triples of a 3x3 (4x4) grid; every state executed on AddressRange/AddressCell',
@@ -92,12 +92,12 @@ CHECKS = {
     ref='§3 C15'),
  'C16': dict(
     technique='Lookup.tla: vectors/tables built by Append with incrementally maintained sorted flags, MATCH as a relation (set of allowed results), INDEX/VLOOKUP/HLOOKUP/LOOKUP definitions and an implementation-shaped binary search, model-checked by TLC; every state executed through formulas over real ranges',
-    text='TLC checks ExactIsFirstEqual, ApproxIsBest, ApproxFindsExact, BinarySearchOK (the bisect result is in the linear-scan allowed set), Sandwich, AppendLaw and the table laws (VLOOKUP = HLOOKUP of the transpose, LOOKUP array form, result = INDEX at an allowed MATCH position, out-of-range index errors) exhaustively over mixed-type pools (vectors to length 3-5 quick / 8 thorough, tables to 6x4); each vector x 25 lookup values x 3 match types is executed through MATCH/INDEX/VLOOKUP/HLOOKUP/LOOKUP formulas and library calls and must be in the allowed set.',
+    text='TLC checks ExactIsFirstEqual, ApproxIsBest, ApproxFindsExact, BinarySearchOK (the bisect result is in the linear-scan allowed set), Sandwich, AppendLaw and the table laws (VLOOKUP = HLOOKUP of the transpose, LOOKUP array form, result = INDEX at an allowed MATCH position, out-of-range index errors, a row / column number k + 1/2 answers like k) exhaustively over mixed-type pools (vectors to length 3-5 quick / 8 thorough, tables to 6x4); each vector x 25 lookup values x 3 match types is executed through MATCH/INDEX/VLOOKUP/HLOOKUP/LOOKUP formulas and library calls and must be in the allowed set.',
     note='blank matched by the neutral values 0/""/FALSE, unsorted data with types +-1 and punctuation collation are unconstrained (totality still required); one-cell ranges other than in MATCH are collapsed to scalars by the compiler and skipped in the workbook path',
     ref='§3 C16'),
  'C17': dict(
     technique='Calendar.tla: day-successor machine with Excel month lengths plus DATE/EOMONTH/EDATE/clock/YEARFRAC enumerators, model-checked by TLC against independent closed forms; exported month starts / argument vectors executed on the date_time functions',
-    text='TLC walks the 1900 calendar (every serial day in the thorough tier, 2,958,466 states) checking SerialClosedForm, RoundTrip, Fictitious days, ProlepticAfter60, weekday period 7, LastDay, carrying laws of DATE, month-end laws of EOMONTH/EDATE, clock decomposition and YEARFRAC symmetry; the harness expands TLC\'s month starts to days and calls YEAR/MONTH/DAY/WEEKDAY/DATE/EOMONTH/EDATE/HOUR/MINUTE/SECOND/YEARFRAC through wrappers and formulas.',
+    text='TLC walks the 1900 calendar (every serial day in the thorough tier, 2,958,466 states) checking SerialClosedForm, RoundTrip, Fictitious days, ProlepticAfter60, weekday period 7, LastDay, carrying laws of DATE (CarrySpelling: DATE(y,m,d) = DATE(y,m+1,d-len(m)) up to December 9999), arguments of any size (machine far: one argument +-{1,2,3,5,7}x10^k, laws FarBeyond / FarLinear), month-end laws of EOMONTH/EDATE, clock decomposition and YEARFRAC symmetry; the harness expands TLC\'s month starts to days and calls YEAR/MONTH/DAY/WEEKDAY/DATE/EOMONTH/EDATE/HOUR/MINUTE/SECOND/YEARFRAC through wrappers and formulas.',
     note='YEARFRAC values only judged for symmetry; serials above 2958465 and a few carry corner cases only require no exception; quick tier: every 7th day + all month boundaries',
     ref='§3 C17'),
  'C18': dict(
